@@ -116,13 +116,18 @@ def evaluate(pid, tag, data, res):
         if bad or any('Publish with' in n or 'rejected' in n or 'source publish failed' in n for n in c['notes']):
             res.violations.append(dict(signature='C01/unexpected-observation', what='unexpected observation: %s %s' % (bad[:1], c['notes'][:2]), case=describe(c, True)))
             continue
+        if any(('teardown hung' in n or 'router close' in n or 'Run did not return' in n) for n in c['notes']):
+            # shutdown anomalies are outside C01 (Router.Close / GoChannel.Close termination = C06 / C07): recorded, not judged
+            res.count('shutdown anomaly after quiescence (not judged here): ' + ';'.join(sorted(c['notes']))[:80])
+            res.extra.setdefault('shutdown_anomalies', []).append(dict(case=config(c), notes=c['notes'], goroutines=(c.get('dump') or '')[:20000]))
         if nf:
             res.nontrivial.add(shape(c))
         good.append(c)
     for part, chunk in enumerate(C.chunks(good, 60)):
         r = C.coq_eval(pid, 'cases_%s_%d' % (tag, part), HEADER + 'Definition cases : list c01_case := %s.\n' % C.coq_list([case_term(c) for c in chunk]),
                        [('R_mis', 'c01_mismatches cases'), ('R_log', 'c01_log_violations cases'),
-                        ('R_inv', 'c01_invented_violations cases'), ('R_lost', 'c01_lost_violations cases')])
+                        ('R_inv', 'c01_invented_violations cases'), ('R_lost', 'c01_lost_violations cases'),
+                        ('R_red', 'c01_redelivery_violations cases')])
         vio = set()
         for i in r['R_log']:
             vio.add(i)
@@ -132,6 +137,9 @@ def evaluate(pid, tag, data, res):
         for i in r['R_inv']:
             vio.add(i)
             res.violations.append(dict(signature='C01/invented', what='a message arrived at the final topic that does not descend from a successfully published source message (lineage/path not derivable)', case=describe(chunk[i], True)))
+        for i in r['R_red']:
+            vio.add(i)
+            res.violations.append(dict(signature='C01/not-redelivered', what='a delivery attempt ended in a Nack and the same message was never attempted again at that stage although nothing is pending', case=describe(chunk[i], True)))
         for i in r['R_lost']:
             vio.add(i)
             c = chunk[i]
